@@ -9,6 +9,7 @@ def run(ctx):
         (2, lambda r: C.gen_mixed(r, C.W_BASIC, nblocks=r.randrange(4, 12), p_call=0.25, max_ops=5)),
         (2, C.gen_group),
         (1, C.gen_hub),
+        (1, C.gen_shared_expiry),
     ]
     return C.run_check(ctx, "C02", gens, 110, 6000, router_n=60 if ctx.quick else 3000)
 
